@@ -278,4 +278,9 @@ EXPLANATION = (
     'name rejected before insertion. Record classes / cache-flush bits of the announcement: C03.TTLCLASS, C01.FLUSHBIT, C08.GOODBYE. '
     'Not decided: conflict arrival windows and network delays [X].'
 )
+EXPLANATION_ADDENDUM = (
+    ' C09.ORDER also requires that no suspension lies between the conflict check and the probe that follows it, and that every cache index keeps all records sharing a key (a type and its subtype point at the same instance).'
+)
+EXPLANATION = EXPLANATION + EXPLANATION_ADDENDUM
+
 RULES = [order, shape, const, unique]
